@@ -322,7 +322,7 @@ def blob_data(rng, n, nb, xc, yc, rmax, kind):
     return data, info
 
 
-def gen_iter_cases(ctx, count, sizes=(32, 48, 64), nbs=(1,), prefix="r", full_period=True, kinds=("lin", "lin", "lin", "sin")):
+def gen_iter_cases(ctx, count, sizes=(32, 33, 48, 49, 64), nbs=(1,), prefix="r", full_period=True, kinds=("lin", "lin", "lin", "sin")):
     rng = ctx.rng
     cases = []
     for i in range(count):
